@@ -69,10 +69,13 @@ Inductive mop :=
 | MMPop (i : nat) (d : option json)                       (* held[i].pop() / held[i].pop(default) *)
 | MRead (i : nat)                                         (* held[i].data, held[i].path_as_str *)
 | MGet (p : jpath) (d : @default)                         (* get(p, doc[, default]) : no store *)
-| MFind (p : jpath).                                      (* list(find(p, doc)) *)
+| MFind (p : jpath)                                       (* list(find(p, doc)) *)
+| MSetFrom (p : jpath) (v : json) (cascade : bool)        (* set_(p, v, held[-1], cascade): the Match just held is the data source *)
+| MPopFrom (p : jpath) (d : option json).                 (* pop(p, held[-1][, default]) *)
 
 Record mcase := { m_doc0 : json; m_nl0 : nat; m_ops : list mop }.
-Record menv := { m_doc : json; m_nl : nat; m_held : list jtm }.
+(* m_fresh: the previous operation was a successful hold (the last held match is a current view of the document) *)
+Record menv := { m_doc : json; m_nl : nat; m_held : list jtm; m_fresh : bool }.
 
 Definition m_set_match := set_match B HFUEL DEPTH.
 Definition m_pop_match := pop_match B HFUEL DEPTH.
@@ -130,7 +133,7 @@ Definition run_mop (e : menv) (o : mop) : otree * menv :=
     let f := renamer (m_nl e) order in
     let doc2 := relabel f doc' in
     (ON "op" [ob; snapshot doc2],
-     {| m_doc := doc2; m_nl := m_nl e + List.length order; m_held := map (tm_map (relabel f)) held' |}) in
+     {| m_doc := doc2; m_nl := m_nl e + List.length order; m_held := map (tm_map (relabel f)) held'; m_fresh := false |}) in
   match o with
   | MSet p v cascade as_match =>
       match m_set_match (S (List.length p)) (SrcDoc doc) doc p v cascade None (m_nl e) with
@@ -177,7 +180,9 @@ Definition run_mop (e : menv) (o : mop) : otree * menv :=
       end
   | MHold p k =>
       match kth_match (S k) doc p k init_state with
-      | Ok (Some m) => finish (ON "hold" [ON "result" [mref m]]) doc (m_nl e) (m_held e ++ [m])
+      | Ok (Some m) =>
+          let '(t, e') := finish (ON "hold" [ON "result" [mref m]]) doc (m_nl e) (m_held e ++ [m]) in
+          (t, {| m_doc := m_doc e'; m_nl := m_nl e'; m_held := m_held e'; m_fresh := true |})
       | Ok None => finish (ON "hold" [ON "none" []]) doc (m_nl e) (m_held e)
       | Exn x => finish (ON "hold" [ON "raise" [oexn x]]) doc (m_nl e) (m_held e)
       end
@@ -231,6 +236,28 @@ Definition run_mop (e : menv) (o : mop) : otree * menv :=
       end
   | MFind p =>
       finish (ON "find" (find_all 200 doc p init_state)) doc (m_nl e) (m_held e)
+  | MSetFrom p v cascade =>
+      match (if m_fresh e then List.last (map Some (m_held e)) None else None) with
+      | None => finish (ON "skip" []) doc (m_nl e) (m_held e)
+      | Some m =>
+          match m_set_match (S (List.length p)) (SrcMatch m) doc p v cascade None (m_nl e) with
+          | (Ok r, doc', nl', es) => finish (ON "setfrom" [ON "value" [lval (tdata r)]; oevents es]) doc' nl' (m_held e)
+          | (Exn x, doc', nl', es) => finish (ON "setfrom" [ON "raise" [oexn x]; oevents es]) doc' nl' (m_held e)
+          end
+      end
+  | MPopFrom p d =>
+      match (if m_fresh e then List.last (map Some (m_held e)) None else None) with
+      | None => finish (ON "skip" []) doc (m_nl e) (m_held e)
+      | Some m =>
+          let must := match d with None => true | Some _ => false end in
+          match m_pop_match (SrcMatch m) doc p must None with
+          | (Ok (Some r), doc', es) => finish (ON "popfrom" [ON "got" [lval (tdata r)]; oevents es]) doc' (m_nl e) (m_held e)
+          | (Ok None, doc', es) =>
+              finish (ON "popfrom" [ON "got" [lval (match d with Some v => v | None => JNull end)]; oevents es])
+                     doc' (m_nl e) (m_held e)
+          | (Exn x, doc', es) => finish (ON "popfrom" [ON "raise" [oexn x]; oevents es]) doc' (m_nl e) (m_held e)
+          end
+      end
   end.
 
 Fixpoint run_mops (e : menv) (os : list mop) : list otree :=
@@ -240,7 +267,7 @@ Fixpoint run_mops (e : menv) (os : list mop) : list otree :=
   end.
 
 Definition run_mcase (c : mcase) : otree :=
-  ON "m" (snapshot (m_doc0 c) :: run_mops {| m_doc := m_doc0 c; m_nl := m_nl0 c; m_held := [] |} (m_ops c)).
+  ON "m" (snapshot (m_doc0 c) :: run_mops {| m_doc := m_doc0 c; m_nl := m_nl0 c; m_held := []; m_fresh := false |} (m_ops c)).
 
 End WithBudget.
 
